@@ -109,12 +109,13 @@ def make_struct(name, members):
 
 class Built:
     """the class made from a declaration plus the Structure classes of its Dicts"""
-    def __init__(self, cls, structs):
+    def __init__(self, cls, structs, sibling=None):
         self.cls = cls
         self.structs = structs                  # dict name -> (KeyClass, ValueClass)
+        self.sibling = sibling                  # a second subclass of the same base class, if declared
 
 
-def build(decl, base=None, program=None, name="Decl", extra=None):
+def build(decl, base=None, program=None, name="Decl", extra=None, sibling_program=None):
     from ebpfcat.ebpf import EBPF
     from ebpfcat.arraymap import ArrayMap, PerCPUArrayMap
     from ebpfcat.hashmap import HashMap, Dict
@@ -126,11 +127,40 @@ def build(decl, base=None, program=None, name="Decl", extra=None):
         ns[a["name"]] = m
         for v in a["vars"]:
             ns[v["name"]] = m.globalVar(v["fmt"])
+    sibling_ns = None
     if decl["hash"]:
+        # decl["hash"]["split"] (optional) spreads the hash variables over a class hierarchy:
+        #   kind "own"      everything in the program class (the default)
+        #        "base"     the HashMap and all variables in a base class, the program class only inherits
+        #        "extend"   the HashMap and the first nbase variables in the base class, the rest added by the
+        #                   program class to the inherited map
+        #        "siblings" like "extend", and a second subclass of the base adds variables of its own (sib)
         hm = HashMap()
-        ns[decl["hash"]["name"]] = hm
-        for v in decl["hash"]["vars"]:
-            ns[v["name"]] = hm.globalVar(v["fmt"], v["default"])
+        split = decl["hash"].get("split") or dict(kind="own")
+        hvars = decl["hash"]["vars"]
+        nbase = 0 if split["kind"] == "own" else (len(hvars) if split["kind"] == "base" else split["nbase"])
+        first = [(v["name"], hm.globalVar(v["fmt"], v["default"])) for v in hvars[:nbase]]
+
+        def own():
+            ns.update((v["name"], hm.globalVar(v["fmt"], v["default"])) for v in hvars[nbase:])
+
+        def sib():
+            return dict((v["name"], hm.globalVar(v["fmt"], v["default"])) for v in split.get("sib", []))
+        if split["kind"] == "own":
+            ns[decl["hash"]["name"]] = hm
+            own()
+        else:
+            base_ns = dict(license="GPL")
+            base_ns[decl["hash"]["name"]] = hm
+            base_ns.update(first)
+            base = type(name + "Base", (base or EBPF,), base_ns)
+            if split["kind"] == "siblings" and split.get("sib_first"):
+                sibling_ns = sib()               # the class body of the sibling runs first
+                own()
+            else:
+                own()
+                if split["kind"] == "siblings":
+                    sibling_ns = sib()
     for dd in decl["dicts"]:
         K = make_struct(dd["name"] + "Key", dd["key"])
         V = make_struct(dd["name"] + "Value", dd["value"])
@@ -140,4 +170,10 @@ def build(decl, base=None, program=None, name="Decl", extra=None):
         ns["program"] = program
     if extra:
         ns.update(extra)
-    return Built(type(name, (base or EBPF,), ns), structs)
+    sibling = None
+    if sibling_ns is not None:
+        sibling_ns["license"] = "GPL"
+        if sibling_program is not None:
+            sibling_ns["program"] = sibling_program
+        sibling = type(name + "Sibling", (base,), sibling_ns)
+    return Built(type(name, (base or EBPF,), ns), structs, sibling)
